@@ -38,7 +38,7 @@ def analyse(ctx, prog, chk):
     chk.used_program(prog)
     fam = family(prog)
     ne = expsib.rule(ctx, prog, chk, fam, re.compile(r"^fp\d+_set_dig$"))
-    na, used = alias.rule(ctx, prog, chk, lambda fn: fn.rfile.startswith("src/fpx/"), ALIAS_OK)
+    na, used = alias.rule(ctx, prog, chk, lambda fn: fn.rfile.startswith(("src/fpx/", "src/low/easy/relic_fpx")), ALIAS_OK)
     nc = c02.rule_const_in(ctx, prog, chk, prefix=("src/fpx/", "src/low/easy/relic_fpx"))
     return {"exp": ne, "siblings": len(fam), "alias": na, "const": nc}
 
